@@ -4,6 +4,7 @@
 package c05rt
 
 import (
+	"context"
 	"bytes"
 	"encoding/json"
 	"fmt"
@@ -360,13 +361,22 @@ func Run(reg *Registry, seed int64, rounds int) {
 			sess.Terminate()
 			continue
 		}
-		px := reflect.ValueOf(it.MakeProxy(sess, p))
+		px0 := reflect.ValueOf(it.MakeProxy(sess, p))
+		// every generated proxy also offers WithContext(ctx): the proxy derived with a live context is
+		// the second half of the generated client API and must behave the same
+		pxs := []reflect.Value{px0}
+		if wc := px0.MethodByName("WithContext"); wc.IsValid() && wc.Type().NumIn() == 1 && wc.Type().NumOut() == 1 {
+			if out, ok := callStuck(wc, []reflect.Value{reflect.ValueOf(context.Background())}); ok && len(out) == 1 && !out[0].IsNil() {
+				pxs = append(pxs, out[0])
+			}
+		}
 		checks := 0
 		bad := func(key, what string) {
 			emit(Result{T: "viol", Pkg: it.Pkg, Iface: it.Name, Key: key, What: what})
 		}
 		failed := map[string]bool{}
 		for round := 0; round < rounds; round++ {
+			px := pxs[round%len(pxs)]
 			for _, m := range it.Methods {
 				if failed[m.IDL] {
 					continue
